@@ -72,6 +72,11 @@ CHECKS = {
             "For every accepted query within k<=2 (quick) / k<=3 (thorough) deviations, every applicable instance of: T1 add a filter (subset), T2 raise recursion depth (superset), T3 make an edge @optional (superset), T4 parameterised edge vs equivalent filter (equal), T5 '=' vs one_of [x] (equal), T6 filter / negation partition (disjoint union), T7 rename outputs and tags (equal up to keys), T8 swap adjacent siblings (equal), over 10 datasets and argument maps. Applicability conditions (not inside a fold; T6 also not under @optional; T4 not @optional/@recurse) are stated in the code next to each transformation.",
             "Both sides are engine runs (no reference evaluator); quick tier applies T1/T6 to queries within k-1 deviations only.",
             "DESIGN.md §4 C23"),
+    "C24": ("model_checking",
+            "shuttle's exhaustive DFS scheduler over 2 threads sharing Arc<Schema> and Arc<IndexedQuery>, scheduling points at every adapter resolver call (and per yielded item where the space allows); every schedule executes the real engine; plus compile-time Send + Sync instantiations",
+            "For five programs (regex filter + fold with imported tag, fold-count filter + optional, coercion + recursion, tag filter across an edge, nested folds) every interleaving of two threads that each compile a query against the shared schema and run the shared compiled query (and their own) with different arguments is explored (quick: configurations up to 2e5 schedules, ~3e5 schedules in total; thorough: up to 6e6 per configuration); IR and rows must equal the sequential run in every schedule. 17 Send + Sync instantiations must compile (a failure there is reported as a C24 violation by ./check).",
+            "Granularity = adapter calls / items: state that outlives a call (global caches, hoisted buffers) is visible, races inside std's OnceLock / Arc are not. Configurations above the tier bound are listed as skipped in the evidence. A watchdog turns a blocked scheduler into a machinery failure.",
+            "DESIGN.md §4 C24"),
     "C25": ("fault_enumeration",
             "exhaustive single-fault enumeration: every (fault kind x resolver x type x field x context position) inside the checker's documented scope, over a bounded-exhaustive family of schemas, each run through the real check_adapter_invariants",
             "For ~800 (quick) / ~4600 (thorough) accepted schemas (repository test schemas, S-verif, the C19 document family): the honest generic adapter passes; each single violation {adjacent contexts swapped, non-null property / one neighbour / true coercion for a vertex-less context} at each of 3 positions of each property (incl. __typename), each in-scope edge and each declared implements pair makes the checker panic. A checker run that passes is a violation, distinguishing 'never called the resolver' from 'called it and missed the fault'.",
